@@ -353,6 +353,30 @@ static void k_vec_rev(void) {          /* rows 'init n base' -> checksum of the 
   }
 }
 
+/* ---- kind 13: boxed slices {instance: {data, len}, drop_fn} in both directions ------------------------------------------------------------ */
+typedef struct { CSliceMutV instance; void (*drop_fn)(CSliceMutV *); } CSliceBoxV;
+static int sb_drops, sb_bad; static void *sb_data; static uintptr_t sb_len;
+static void c_sbox_drop(CSliceMutV *inst) { sb_drops++; if (inst->data != sb_data || inst->len != sb_len) sb_bad++; free(inst->data); }
+extern uint64_t rt_sbox_rev(CSliceBoxV b);
+extern void rt_mk_sbox(CSliceBoxV *out, size_t n, uint64_t base);
+static void k_sbox(void) {            /* rows 'n base' -> checksum read by Rust from a C-built box ; drop_fn runs ; checksum read by C from a Rust-built box */
+  for (int r = 0; r < nrows; r++) {
+    size_t n = (size_t)rowbuf[r][0] % 512; uint64_t base = (uint64_t)(rowlen[r] > 1 ? rowbuf[r][1] : 1);
+    uint64_t *buf = malloc((n ? n : 1) * sizeof(uint64_t)); uint64_t want = 0;
+    for (size_t i = 0; i < n; i++) { buf[i] = base + i; want = want * 31 + buf[i]; }
+    CSliceBoxV b = { { buf, n }, c_sbox_drop }; sb_drops = sb_bad = 0; sb_data = buf; sb_len = n;
+    uint64_t got = rt_sbox_rev(b);
+    if (got != want) fail("c_built_slice_box:_rust_read_other_contents");
+    if (sb_drops != 1) fail("c_built_slice_box:_drop_fn_ran_another_number_of_times_than_once_(an_empty_box_still_owns_its_buffer)");
+    if (sb_bad) fail("c_built_slice_box:_drop_fn_was_handed_another_instance");
+    CSliceBoxV rb; rt_mk_sbox(&rb, n, base);
+    uint64_t got2 = 0; for (size_t i = 0; i < rb.instance.len; i++) got2 = got2 * 31 + ((uint64_t *)rb.instance.data)[i];
+    if (rb.instance.len != n || got2 != want) fail("rust_built_slice_box:_{data,_len}_read_by_c_differ");
+    if (rb.drop_fn) rb.drop_fn(&rb.instance); else fail("rust_built_slice_box:_no_drop_function");
+    row_begin(); row_put((int64_t)got); row_put(sb_drops); row_put((int64_t)got2); row_end();
+  }
+}
+
 int main(void) {
   static char line[1 << 20];
   while (fgets(line, sizeof line, stdin)) {
@@ -366,7 +390,7 @@ int main(void) {
     fails[0] = 0; first_row = 1; { static int64_t d[4096]; rt_take_drops(d, 4096); }
     switch (kind) {
       case 1: k_box(); break; case 2: k_arc(); break; case 3: k_vec((int)elem); break; case 4: k_cb((int)elem); break;
-      case 5: k_it((int)elem); break; case 6: k_slice((int)elem); break; case 7: k_tags(); break; case 8: k_sizes(); break; case 9: k_cb_rev((int)elem); break; case 10: k_it_rev((int)elem); break; case 11: k_arc_rev(); break; case 12: k_vec_rev(); break;
+      case 5: k_it((int)elem); break; case 6: k_slice((int)elem); break; case 7: k_tags(); break; case 8: k_sizes(); break; case 9: k_cb_rev((int)elem); break; case 10: k_it_rev((int)elem); break; case 11: k_arc_rev(); break; case 12: k_vec_rev(); break; case 13: k_sbox(); break;
       default: row_begin(); row_put(-3); row_end();
     }
     printf(" # fails=%s\n", fails[0] ? fails : "-");
